@@ -181,6 +181,17 @@ EXPR_TARGETS = [
 # synchronous fn (prologue/epilogue hand-written)
 BLOCK_TARGETS = [
     dict(
+        name="outquery_accept_reply", file="crates/erbium-core/src/dns/outquery.rs",
+        header=r"async\s+fn\s+handle_query_internal\s*\([^{]*\{",
+        start=r"let\s+out_reply\s*;", end=r"if\s+out_reply\.qid\s*!=\s*id",
+        signature="pub fn lifted_outquery_accept_reply(msg: &ProtoShim, addr: std::net::SocketAddr, id: u16, oq: dnspkt::DNSPkt) -> Result<dnspkt::DNSPkt, Error>",
+        prologue="", epilogue="Ok(out_reply)",
+        rewrites=[(r"self\.send_udp\(addr,\s*&oq\)\.await", "udp_shim(addr, &oq)"),
+                  (r"TcpNameserver::send_query_to\(&addr,\s*oq\)\.await", "tcp_shim(&addr, oq)"),
+                  (r"OUT_QUERY_RETRY\s*\.with_label_values\([^;]*\);", "")],
+        allow_await_before_rewrite=True,
+    ),
+    dict(
         name="send_msg_cmsgs", file="crates/erbium-net/src/socket.rs",
         header=r"pub\s+async\s+fn\s+send_msg\s*<[^{]*\{",
         start=r"let\s+mut\s+cmsgs\s*:", end=r"match\s+nix::sys::socket::sendmsg\s*\(",
@@ -261,8 +272,12 @@ def generate_blocks(status, notes):
             if body is not None:
                 a = list(re.finditer(t["start"], body))
                 b = list(re.finditer(t["end"], body))
-                if len(a) == 1 and len(b) == 1 and a[0].start() < b[0].start() and ".await" not in body[a[0].start():b[0].start()]:
+                if len(a) == 1 and len(b) == 1 and a[0].start() < b[0].start():
                     block = body[a[0].start():b[0].start()]
+                    for pat, rep in t["rewrites"]:
+                        block = re.sub(pat, rep, block, flags=re.S)
+                    if ".await" in block:
+                        block = None
         except Exception:  # noqa
             block = None
         if block is None:
@@ -270,8 +285,6 @@ def generate_blocks(status, notes):
             with _atomic(out) as f:
                 f.write("// extraction failed\n#[allow(unused_variables)]\n%s {\n    panic!(\"lifting failed: block not found in source\")\n}\n" % t["signature"])
             continue
-        for pat, rep in t["rewrites"]:
-            block = re.sub(pat, rep, block, flags=re.S)
         with _atomic(out) as f:
             f.write("// GENERATED on every run by /verif/lib/lift.py: statements of %s (fn at line %d) from /%s/ up to /%s/, verbatim\n" % (t["file"], line, t["start"], t["end"]))
             f.write("#[allow(unused_variables, unused_mut, clippy::all)]\n")
